@@ -15,7 +15,7 @@ RULE = ('enumeration: for each transaction shape (read / write x with / without 
         'frame k, from a third source address or from the running requester\'s address with another pointer, once or three times. Sampled runs draw sizes, latencies, '
         'seeds and k. non-trivial = the intruding frame reached the server inside the transaction window; distinct = distinct scenario JSON')
 FAULT_COUNTERS = {'intruding DM14 frames': 'intrusions'}
-REQUIRED_PROBES = ['intrusions', 'busy_replies', 'other_sa_runs', 'own_sa_runs', 'client_result_unchanged']
+REQUIRED_PROBES = ['intrusions', 'busy_replies', 'other_sa_runs', 'own_sa_runs', 'client_result_unchanged', 'warmup_runs']
 ASSUMPTIONS = ['the transaction window ends when the server has received the closing DM14; under per-receiver FIFO an intruder put on the bus after the closing frame arrives '
                'outside the window and may legitimately start a new transaction, so injection points are the frames before the closing one',
                'the error-indicator bytes of the busy reply are recorded, not judged (the statement requires status operation failed / busy)']
@@ -29,7 +29,14 @@ def base(op, key, nbytes, **kw):
 
 
 def shapes():
-    return [base(op, key, n) for op in ('read', 'write') for key in (None, 'xor') for n in (4, 20)]
+    out = [base(op, key, n) for op in ('read', 'write') for key in (None, 'xor') for n in (4, 20)]
+    # the same shapes with seed/key as the *second* transaction on the objects (after an undisturbed first one)
+    for op in ('read', 'write'):
+        for n in (4, 20):
+            b = base(op, 'xor', n)
+            b['warmup'] = 'read' if op == 'write' else 'write'
+            out.append(b)
+    return out
 
 
 def clean_count(scn):
@@ -51,6 +58,9 @@ def enumerate_cases(tier, master):
                     c = copy.deepcopy(sh)
                     c['intrude'] = {'k': k, 'kind': kind, 'repeat': rep}
                     cases.append(c)
+            c = copy.deepcopy(sh)
+            c['intrude'] = {'k': k, 'kind': 'other_sa', 'repeat': 1, 'cmd': 4}      # an intruding 'operation completed'
+            cases.append(c)
     return cases
 
 
@@ -61,9 +71,12 @@ def generate(rng, tier, i):
     scn = base(op, key, n, kernel=gen.draw_kernel(rng), latency=gen.draw_latency(rng, False, ['C', 'S']), seeds=[rng.randrange(1, 0xFFFF) for _ in range(4)],
                cm=rng.choice([1, 3, 255]), address=rng.getrandbits(32), fill=rng.randrange(1 << 16))
     scn['seed'] = rng.randrange(1 << 32)
+    scn['warmup'] = rng.choice([None, None, 'read', 'write'])
     scn['c_addr'] = rng.choice([0xF9, 0xF9, 0x00, 0x01, 253, rng.choice([a for a in range(254) if a not in (S_ADDR, I_ADDR)])])
     F = clean_count(scn)
     scn['intrude'] = {'k': rng.randrange(0, max(1, F - 1)), 'kind': rng.choice(['other_sa', 'own_sa']), 'repeat': rng.choice([1, 1, 2, 3])}
+    if scn['intrude']['kind'] == 'other_sa':
+        scn['intrude']['cmd'] = rng.choice([1, 1, 2, 4, 4, 0])
     return scn
 
 
@@ -102,11 +115,14 @@ def execute(scn, keep_log=False, hook=None):
             sa, ptr = I_ADDR, scn['address']
         else:
             sa, ptr = net.c_addr, (scn['address'] + 0x10) & 0xFFFFFFFF
-        d = [1, (1 << 4) + (1 << 1) + 1] + list(ptr.to_bytes(4, 'little')) + [7, 0]
+        # command of the intruding DM14: read (1, the default), write (2), operation completed (4), erase (0)
+        d = [1, (1 << 4) + (intr.get('cmd', 1) << 1) + 1] + list(ptr.to_bytes(4, 'little')) + [7, 0]
         return rc.make_id(6, 0, PF_DM14, S_ADDR, sa), bytes(d), sa
 
+    armed = [False]
+
     def observe(fr):
-        if fr.src not in ('C', 'S'):
+        if fr.src not in ('C', 'S') or not armed[0]:
             return
         i = rc.Id(fr.can_id)
         k = txn['n']
@@ -122,10 +138,33 @@ def execute(scn, keep_log=False, hook=None):
                     bus.send('I', cid, True, d)
             sim.after(1000, inject, 'op')
     bus.observers.append(observe)
+    frames0 = 0
+    if scn.get('warmup'):
+        # an earlier, undisturbed transaction on the same objects (its key, seed, pointer ... must not leak into the next one)
+        wn = 3
+        wdata = bytes(payload(scn['fill'] + 1, wn))
+        if scn['warmup'] == 'read':
+            wop = {'op': 'read', 'address': (scn['address'] + 0x100) & 0xFFFFFFFF, 'count': wn, 'size': 1, 'signed': False, 'raw': True, 'direct': 1}
+            net.plans.insert(0, {'action': 'respond', 'proceed': True, 'data': list(wdata)})
+        else:
+            wop = {'op': 'write', 'address': (scn['address'] + 0x100) & 0xFFFFFFFF, 'values': list(wdata), 'size': 1, 'direct': 1}
+            net.plans.insert(0, {'action': 'respond', 'proceed': True, 'data': []})
+        net.run_client([wop], gap_s=0.05)
+        sim.run_for(1.0)
+        if not net.client_results or net.client_results[0]['exc'] is not None:
+            viol.append({'clause': 'harness-warmup-failed', 'rank': 9, 'msg': 'the undisturbed first transaction failed: %r' % (net.client_results[0]['exc'] if net.client_results else None,)})
+        stats['warmup_runs'] = 1
+        net.proceed_calls.clear()
+        net.respond_results.clear()
+        net.respond_rx_marks.clear()
+        net.client_results.clear()
+        net.notify_count = 0
+        frames0 = len(bus.frames)
+    armed[0] = True
     net.run_client([op], gap_s=0.2)
     sim.run_for(2.2)
     viol += common.thread_violations(net.w)
-    frames = list(bus.frames)
+    frames = list(bus.frames[frames0:])
     txn_frames = sum(1 for f in frames if f.src in ('C', 'S'))
     feat = {'kind': intr['kind'] if intr else 'none', 'op': scn['op'], 'key': bool(scn['server_key'])}
     if intr is not None:
